@@ -826,3 +826,130 @@ func calleeOnPath(ci ssa.CallInstruction, st *an.PathState) *ssa.Function {
 	}
 	return nil
 }
+
+// rangeLiteralElems: v is the element variable of `for _, e := range L` where L is an array or
+// slice literal built in this function; returns L's elements in iteration order. nil unless the
+// loop visits every index exactly once in increasing order (a range loop or its classic spelling
+// over the whole literal) and the literal is written only by its constant-index initialisers.
+func rangeLiteralElems(v ssa.Value) []ssa.Value {
+	var agg, idx ssa.Value
+	switch x := v.(type) {
+	case *ssa.Index:
+		agg, idx = x.X, x.Index
+	case *ssa.UnOp:
+		if ia, ok := x.X.(*ssa.IndexAddr); ok && x.Op == token.MUL {
+			agg, idx = ia.X, ia.Index
+		}
+	}
+	if agg == nil {
+		return nil
+	}
+	var al *ssa.Alloc
+	isSlice := false
+	switch a := agg.(type) {
+	case *ssa.UnOp:
+		if a.Op == token.MUL {
+			al, _ = a.X.(*ssa.Alloc)
+		}
+	case *ssa.Slice:
+		if a.Low == nil && a.High == nil && a.Max == nil {
+			al, _ = a.X.(*ssa.Alloc)
+			isSlice = true
+		}
+	case *ssa.Alloc:
+		al = a
+	}
+	if al == nil {
+		return nil
+	}
+	arr, ok := al.Type().Underlying().(*types.Pointer).Elem().Underlying().(*types.Array)
+	if !ok {
+		return nil
+	}
+	n := arr.Len()
+	elems := make([]ssa.Value, n)
+	for _, r := range an.Referrers(al) {
+		switch r := r.(type) {
+		case *ssa.IndexAddr:
+			k, isC := an.ConstInt(r.Index)
+			if !isC {
+				if ssa.Value(r) != v && !usedOnlyAsLoad(r) {
+					return nil
+				}
+				continue
+			}
+			for _, r2 := range an.Referrers(r) {
+				st, ok := r2.(*ssa.Store)
+				if !ok || st.Addr != ssa.Value(r) || k < 0 || k >= n || elems[k] != nil {
+					return nil
+				}
+				elems[k] = st.Val
+			}
+		case *ssa.UnOp, *ssa.Slice:
+		default:
+			return nil
+		}
+	}
+	for _, e := range elems {
+		if e == nil {
+			return nil
+		}
+	}
+	// the index: i = phi+1 with phi = [-1 outside, i inside] (range), or phi = [0 outside, phi+1 inside]
+	var phi *ssa.Phi
+	var cmpX ssa.Value
+	start := int64(0)
+	if inc, ok := idx.(*ssa.BinOp); ok && inc.Op == token.ADD {
+		if k, isC := an.ConstInt(inc.Y); isC && k == 1 {
+			phi, _ = inc.X.(*ssa.Phi)
+			cmpX, start = inc, -1
+		}
+	} else if p, ok := idx.(*ssa.Phi); ok {
+		phi, cmpX = p, p
+	}
+	if phi == nil {
+		return nil
+	}
+	h := phi.Block()
+	ifi, ok := h.Instrs[len(h.Instrs)-1].(*ssa.If)
+	if !ok {
+		return nil
+	}
+	cmp, ok := ifi.Cond.(*ssa.BinOp)
+	if !ok || cmp.Op != token.LSS || cmp.X != cmpX {
+		return nil
+	}
+	if k, isC := an.ConstInt(cmp.Y); isC {
+		if k != n {
+			return nil
+		}
+	} else if a := lenArgOf(cmp.Y); a == nil || !isSlice || a != agg {
+		return nil
+	}
+	for i, e := range phi.Edges {
+		if k, isC := an.ConstInt(e); isC {
+			if k != start {
+				return nil
+			}
+			continue
+		}
+		inc, ok := e.(*ssa.BinOp)
+		if !ok || inc.Op != token.ADD || inc.X != ssa.Value(phi) {
+			return nil
+		}
+		if k, isC := an.ConstInt(inc.Y); !isC || k != 1 {
+			return nil
+		}
+		_ = i
+	}
+	return elems
+}
+
+func usedOnlyAsLoad(v ssa.Value) bool {
+	for _, r := range an.Referrers(v) {
+		if u, ok := r.(*ssa.UnOp); !ok || u.Op != token.MUL {
+			return false
+		}
+	}
+	return true
+}
